@@ -21,7 +21,7 @@ META = {
 
 NAMES = ['x', '.hidden', '-dash', 'a b', 'p%41q', 'new\nline', '\u00fcn\u00ef', 'files', 'x.trashinfo', 'x_1',
          'n' * 200, ' lead', 'trail ', 'a=b', '[Trash Info]', 'Path=z']
-LAYOUTS = ['home', 'top', 'alt', 'trash-dir', 'trash-dir-through-a-link-on-another-volume']
+LAYOUTS = ['home', 'top', 'alt', 'trash-dir', 'trash-dir-through-a-link-on-another-volume', 'home-fallback-across-volumes']
 NL = len(LAYOUTS)
 SORTS = [None, 'date', 'path', 'none']
 FROMS = ['origdir', 'ancestor', 'root', 'path-arg', 'path-arg-rel']
@@ -48,6 +48,11 @@ def scenario(kind, name, layout, sort, frm, parent_removed, noise):
         put_extra = ['--trash-dir', '/h/lt']
         rest_extra = ['--trash-dir', '/h/lt']
     e = scen.env()
+    if lay == 'home-fallback-across-volumes':
+        # no usable trash dir on /v: with the fallback enabled the entry crosses to the home trash by copy + delete
+        nodes += [W.f('/v/.Trash', 'file', 0o644, 811), W.f('/v/.Trash-1000', 'file', 0o644, 812)]
+        put_extra = ['--home-fallback']
+        e['TRASH_ENABLE_HOME_FALLBACK'] = '1'
     steps = []
     nz = NOISE[noise]
     if nz == 'other-before':
@@ -141,7 +146,15 @@ def _case(kind, name, layout, sort, frm, parent_removed, noise):
         if r2[0]['exc'] or r2[0]['exit'] != 0:
             return rt.fail('C02:restore-failed:%s' % label, repr(r2[0])[:600])
         after = m.snap('/')
-        if scen.sub(after, path) != payload:
+        back = scen.sub(after, path)
+        if back != payload and payload[0] == 'l' and back is not None and back[0] == 'l' and back[1] == payload[1] \
+                and LAYOUTS[layout] == 'home-fallback-across-volumes':
+            # the same recorded defect as C01's: shutil.move re-creates a symlink that crosses devices
+            x = rt.fail('C02:symlink-mtime-not-preserved:cross-device-move', 'the symlink %r came back with its target but a fresh modification time' % (path,))
+            if x and x != 'twin-reached':
+                return x
+            back = payload
+        if back != payload:
             return rt.fail('C02:restored-differs:' + label,
                            'restored subtree differs: %r' % (W.diff_snaps(payload, scen.sub(after, path))[:6],))
         # everything else: equal to 'before' except new directories (trash skeleton, recreated parents)
@@ -234,13 +247,14 @@ def obligations(tier):
            bounds='volume: any mount-point-shaped str len<=3; parent = volume or volume/rest with rest any str len<=3 without leading/trailing slash'),
         CH('W_kind_name_layout_sort', MOD, 'w_main', timeout=900, partitions=list(range(6)), engine='W',
            regime='selector', encodes=enc, stubs=K.STUBS,
-           bounds='6 kinds x 16 names x 5 layouts (incl. --trash-dir through a symlink crossing a mount point) x 4 sort modes; restore from the original directory'),
+           bounds='6 kinds x 16 names x 6 layouts (incl. --trash-dir through a symlink crossing a mount point, and the home fallback across volumes) x 4 sort modes; restore from the original directory'),
         CH('W_from_parent_noise', MOD, 'w_from', timeout=900, partitions=list(range(6)), engine='W',
            regime='selector', encodes=enc, stubs=K.STUBS,
-           bounds='6 kinds x 5 layouts x 5 restore-from x parent removed x 4 noise histories x 3 names x 3 sorts'),
+           bounds='6 kinds x 6 layouts x 5 restore-from x parent removed x 4 noise histories x 3 names x 3 sorts'),
     ]
     if tier == 'thorough':
         obs.append(CH('W_full_product', MOD, 'w_full', timeout=3000, twin=False, engine='W', regime='selector',
                       partitions=[(k, l) for k in range(6) for l in range(NL)], encodes=enc, stubs=K.STUBS,
-                      bounds='6 x 16 x 5 x 4 x 5 x 2 x 4 full product'))
-    return obs
+                      bounds='6 x 16 x 6 x 4 x 5 x 2 x 4 full product'))
+    from harness import kpair
+    return kpair.obligations(tier) + obs
